@@ -50,3 +50,36 @@ func Harness_C03_trace_through_transport() {
 	verifAssert("backtrace-point-argument-has-traces", entries > 0)
 	verifAssert("some-trace-contains-the-originating-call", found)
 }
+
+// chains of two sequential transports (thorough tier)
+func Harness_C03_trace_through_transport_pairs_T() {
+	t1 := verifPick("t1", 0, df.VerifNumTransports-1)
+	t2 := verifPick("t2", 0, df.VerifNumTransports-1)
+	verifAssume(df.VerifSequentialTransport(t1) && df.VerifSequentialTransport(t2))
+	split := verifPick("split", 1, 2)
+	stringData := verifPick("string-data", 0, 1) == 1
+	w := df.VerifBuildDirectFlow([]int{t1, t2}, []int{0, 1}, split, 0, stringData)
+	cfg := config.NewDefault()
+	cfg.SlicingProblems = []config.SlicingSpec{{
+		BacktracePoints: []config.CodeIdentifier{config.NewCodeIdentifier(config.CodeIdentifier{Package: "main", Method: "^sink$"})},
+	}}
+	verifOneSchedule(true)
+	verifTerminatesWithin("backtrace-analysis-terminates", 150000000)
+	res, _ := Analyze(config.NewLogGroup(cfg), cfg, w.Prog, nil)
+	verifTerminated()
+	verifReach("analysed")
+	found := false
+	for entry, traces := range res.Traces {
+		if df.Instr(entry) != w.Sink {
+			continue
+		}
+		for _, tr := range traces {
+			for _, tn := range tr {
+				if tn.GraphNode != nil && df.Instr(tn.GraphNode) == w.Source {
+					found = true
+				}
+			}
+		}
+	}
+	verifAssert("some-trace-contains-the-originating-call", found)
+}
